@@ -1,8 +1,8 @@
 """C28 A link is encrypted only with a key supplied for it."""
 from .lib.match import *
 
-SELECT = r'^bluetoe::link_layer::details::link_layer_security_impl::impl::|^bluetoe::link_layer::link_layer::(disconnect|force_disconnect)$|^bluetoe::details::link_state::'
-UNITS = lambda u: u in ('w_inst_ll',) or u.startswith('t_link_layer_ll_enc')
+SELECT = r'^bluetoe::link_layer::details::link_layer_security_impl::impl::|^bluetoe::link_layer::link_layer::(disconnect|force_disconnect)$|^bluetoe::details::link_state::|^bluetoe::details::(legacy_security_connection_data|lesc_security_connection_data|security_connection_data)::find_key$'
+UNITS = lambda u: u in ('w_inst_ll', 'w_inst_sm') or u.startswith('t_link_layer_ll_enc')
 SI = 'bluetoe::link_layer::details::link_layer_security_impl::impl::'
 LL = 'bluetoe::link_layer::link_layer::'
 META = {
@@ -18,6 +18,9 @@ def run(chk, facts, tier):
     chk.rule('encrypted-needs-start-enc-req', 'every is_encrypted(true) / start_transmit_encrypted() is control dependent on a flag that only the has_key_ branch (LL_START_ENC_REQ sent) sets', floor=1)
     chk.rule('key-from-find-key', 'has_key_ is written only by std::tie(has_key_, key) = connection_data_.find_key(ediv, rand) with ediv/rand read from the request body (and false initially)', floor=1)
     chk.rule('start-enc-req-only-with-key', 'transmit_pending_security_pdus: LL_START_ENC_REQ + start_receive_encrypted() only under has_key_, otherwise reject(LL_ENC_REQ, pin_or_key_missing)', floor=1)
+    chk.rule('key-only-for-its-request', 'the connection data classes the link layer asks (find_key(ediv, rand)) supply the pairing key only under state() == pairing_completed && ediv == 0 && rand == 0 (the same rule as C33\'s find-key-guard: a key is supplied only for the EDIV/Rand it belongs to)', floor=3)
+    from .C33 import find_key_guard
+    find_key_guard(chk, facts, 'key-only-for-its-request')
     chk.rule('pause-and-reset-unencrypt', 'LL_PAUSE_ENC_REQ / LL_PAUSE_ENC_RSP store is_encrypted(false); reset_encryption() stores false and stops both directions; disconnect() and force_disconnect() call reset_encryption()', floor=4)
     tp = variants(facts, SI + 'transmit_pending_security_pdus', chk)
     # flags that are set true only in the has_key_ branch next to the START_ENC_REQ
